@@ -18,8 +18,8 @@ EMPTY = 'E'              # the empty node () as a nested target
 ALPHABETS = {
     'wide': {
         'concepts': [ABSENT, 'x', 'a', NOCONCEPT, '"s"', 'x~1'],
-        'roles': [':r', ':q', ':r-of', ':q-of', ':', ':r~e.3', ':r-of~e.2', ':op1', ':op2', ':op10'],
-        'atoms': ['k', '7', '-', '"s t"', '"(~/:#\\""', '"s"~2', None, 'c'],
+        'roles': [':r', ':q', ':r-of', ':q-of-k-of', ':', ':r~e.3', ':r-of~e.2', ':op1', ':op2', ':op10'],
+        'atoms': ['k', '7', '-', '"s t"', '"(~/:#\\""', '"s"~e2', None, 'c'],
         'refs': 'all+aligned',
     },
     'mid': {
@@ -98,8 +98,8 @@ def slots(shape, alpha, dupvars=False):
     elif mode == 'all+aligned0':
         refs = refs + [VARS[0] + '~e.3']
     elif mode == 'all+alignedself':
-        # alignment whose prefix letter is spelled like the variable itself: a~a.3
-        refs = refs + [v + '~' + v + '.3' for v in refs]
+        # alignment whose prefix letter is spelled like the variable itself: a~a.3; and a prefix-less one: a~4
+        refs = refs + [v + '~' + v + '.3' for v in refs] + [v + '~4' for v in refs]
     elif mode == 'none':
         refs = []
     atoms = list(dict.fromkeys(list(alpha['atoms']) + refs))     # a constant spelled like a variable of this tree is that reference
